@@ -33,6 +33,7 @@ TEMPLATES = {
     'single': 'one',
     'short_static': 'index second',
     'wide': 'index [$id, $title(12), sect$num(10)]',       # widths of two digits
+    'ext': 'index.html [$id, sect$num(4)]',                 # one name spells the extension out, the others get it added
 }
 SINGLE = ('single_var', 'single')
 THEMES = {'HTML5': ('HTML5', 'default'), 'HTML5min': ('HTML5', 'minimal'), 'XHTML': ('XHTML', 'default'),
@@ -437,7 +438,7 @@ def run(tier, seed, rep):
                 blocks.append(('book', units, 'twins', 'default', None, 'HTML5', [-10, 0, 1, 2, 3, 6], False))
                 blocks.append(('book', units, 'twins', 'default', None, 'XHTML', [0, 1, 2, 3], False))
         for units in shapes('book', 2):
-            for t in ('num3', 'single', 'single_var', 'short_static'):
+            for t in ('num3', 'single', 'single_var', 'short_static', 'ext'):
                 blocks.append(('book', units, 'rich', t, None, 'XHTML', [-10, 0, 1, 2, 6], False))
         blocks += extra_blocks(2)
     else:
